@@ -12,7 +12,10 @@ model together with the observed set iteration orders; compared: `all_nodes`, ev
 Oracle on the implementation: the intended netlist is known by construction of the drawing
 program (union–find over grid points, gen_draw.intended); metamorphic runs: 4 rotations,
 translations, units, wire subdivision, shuffled insertion order must give the same netlist
-up to node renaming and the same DC / complex solution.
+up to node renaming and the same DC / complex solution.  History stream: a drawing is translated,
+further symbols (a wire merging two nodes, a label, a ground, a component) are added to the SAME
+Schematic object and it is translated again, 2–3 times; every translation must be the intended
+netlist of the drawing as it stands and agree with a fresh drawing built in one go.
 """
 from __future__ import annotations
 import math, copy
@@ -333,6 +336,117 @@ def metamorphic(ctx, out, rng, program, origin, ac=False):
         else:
             out.count('solutions_compared')
 
+
+# --------------------------------------------------------------------------- history stream: re-translation of a grown drawing
+
+ADDED = {'wire': 'wire', 'node': 'label', 'lnode': 'label', 'gnd': 'ground'}
+
+def random_extension(rng, program, counter):
+    """one or two further symbols for an existing drawing: a wire that merges two nodes, a node label,
+    a ground, another component — such that the extended program stays a valid drawing"""
+    spec = gd.intended(program)
+    pts = list(spec['cls'])
+    named = set(spec['names'])
+    used_names = {n for ns in spec['names'].values() for n in ns}
+    for _ in range(20):
+        c = rng.random()
+        if c < 0.4 and len(set(spec['cls'].values())) > 1:
+            a = rng.choice(pts); others = [p for p in pts if spec['cls'][p] != spec['cls'][a]]
+            if not others: continue
+            b = rng.choice(others)
+            if spec['cls'][a] in named and spec['cls'][b] in named: continue      # would put two names on one node
+            ext = [dict(kind='wire', a=a, b=b, place='endpoints')]
+        elif c < 0.6:
+            free = [p for p in pts if spec['cls'][p] not in named]
+            name = rng.choice([n for n in ['A', 'B', 'K', '7', 'x9', '1', '2'] if n not in used_names] or [f'n{counter}'])
+            if not free: continue
+            ext = [dict(kind=rng.choice(['node', 'lnode']), name=name, a=rng.choice(free))]
+        elif c < 0.75:
+            free = [p for p in pts if spec['cls'][p] not in named]
+            if spec['grounds'] or not free or '0' in used_names: continue
+            ext = [dict(kind='gnd', a=rng.choice(free))]
+        else:
+            a = rng.choice(pts); b = rng.choice(pts + [(a[0] + 1, a[1] + 7)])
+            if a == b: continue
+            k = rng.choice(['R', 'G', 'C', 'V', 'I'])
+            ext = [dict(kind=k, name=f'x{counter}{k}', vals=gd.random_vals(rng, k), rev=rng.random() < 0.4, a=a, b=b, place='endpoints')]
+        if gd.valid_program(program + ext):
+            return ext
+    return None
+
+def history_case(ctx, out, program, extensions, geom, origin):
+    """translate a drawing, add symbols to the SAME Schematic object, translate again: every
+    translation must be the intended netlist of the drawing as it stands (and agree, up to node
+    renaming, with the translation of a fresh drawing built in one go)"""
+    from CircuitCalculator.SimpleCircuit.DiagramTranslator import circuit_translator
+    from props import c15
+    out.evaluations += 1
+    out.count('origin:' + origin)
+    base = [dict(s, place='endpoints') if 'b' in s else dict(s) for s in program]
+    d, _ = gd.build(base, geom)
+    if gd.tie_distance(d) < 1e-7:
+        out.skip('tie_margin'); return
+    try:
+        c = circuit_translator(d)
+    except Exception:
+        out.count('history_base_untranslatable'); return
+    if gd.compare_with_intended(c, gd.intended(base)) is not None:
+        out.count('history_base_off'); return          # reported by the plain stream
+    prog = list(base)
+    for step_no, ext in enumerate(extensions, 1):
+        ext = [dict(s, place='endpoints') if 'b' in s else dict(s) for s in ext]
+        gd.build(ext, geom, schematic=d)                 # the same Schematic object grows
+        prog = prog + ext
+        added = ADDED.get(ext[0]['kind'], 'component')
+        out.count('history_added:' + added)
+        desc = dict(base=gd.pretty(base, geom), extensions_so_far=[gd.pretty(e)['steps'] for e in extensions[:step_no]])
+        payload = dict(program=base, extensions=extensions, geom=geom)
+        canon = dict(op='retranslate', symptom='stale_after_extension', added=added)
+        try:
+            c_again = circuit_translator(d)
+        except Exception as e:
+            out.spec_fail(dict(canon, symptom='raises_after_extension', exc=tag(e)), f'step {step_no}: re-translation raises {type(e).__name__}: {e}',
+                          desc, **payload); return
+        fresh, _ = gd.build(prog, geom)
+        try:
+            c_fresh = circuit_translator(fresh)
+        except Exception:
+            out.count('history_fresh_untranslatable'); return
+        diff = gd.compare_with_intended(c_again, gd.intended(prog))
+        diff2 = c15.same_circuit(c_fresh, c_again)
+        if diff is not None or diff2 is not None:
+            what = diff[1] if diff is not None else diff2[2]
+            out.spec_fail(canon, f'step {step_no} (added {added}): the re-translated drawing is not the drawing as it stands: {what}', desc,
+                          impl=dict(retranslated=show_circuit(c_again), fresh=show_circuit(c_fresh)), **payload)
+            return
+        out.nontrivial(('history', added, step_no))
+    out.sample(dict(history=gd.pretty(base, geom), extensions=[gd.pretty(e)['steps'] for e in extensions]))
+
+# open Wheatstone bridge, then a wire joining the two mid points, then a label and a ground
+BRIDGE = [dict(kind='V', name='Vs', vals={'V': 10.0}, rev=False, a=(0, 0), b=(0, 2)),
+          dict(kind='R', name='R1', vals={'R': 1.0}, a=(0, 2), b=(1, 1)), dict(kind='R', name='R2', vals={'R': 2.0}, a=(1, 1), b=(0, 0)),
+          dict(kind='R', name='R3', vals={'R': 3.0}, a=(0, 2), b=(3, 1)), dict(kind='R', name='R4', vals={'R': 4.0}, a=(3, 1), b=(0, 0))]
+BRIDGE_EXT = [[dict(kind='wire', a=(1, 1), b=(3, 1))], [dict(kind='lnode', name='mid', a=(3, 1))], [dict(kind='gnd', a=(0, 0))],
+              [dict(kind='R', name='R5', vals={'R': 5.0}, a=(0, 2), b=(0, 0))]]
+
+def history_stream(ctx, out, rng, n):
+    history_case(ctx, out, BRIDGE, BRIDGE_EXT, dict(gd.IDENT, unit=3.0), 'history_corpus')
+    for i in range(n):
+        if ctx.time_left() < 10: out.notes.append(f'history stream stopped after {i} programs (budget)'); break
+        c = rng.random()
+        prog = gd.ladder_program(rng) if c < 0.5 else gd.random_program(rng, labels=rng.random() < 0.5)
+        if rng.random() < 0.5:
+            prog = [s for s in prog if s['kind'] != 'gnd']
+        if not gd.valid_program(prog) or not any(s['kind'] in gd.TWO_TERMINAL for s in prog):
+            continue
+        exts = []; cur = [dict(s, place='endpoints') if 'b' in s else dict(s) for s in prog]
+        for j in range(rng.randint(2, 3)):
+            e = random_extension(rng, cur, f'{i}_{j}')
+            if e is None: break
+            exts.append(e); cur = cur + e
+        if exts:
+            history_case(ctx, out, prog, exts, gd.random_geometry(rng), 'history')
+
 # --------------------------------------------------------------------------- corpus / malformed / run
 
 CORPUS = [
@@ -390,6 +504,7 @@ def run(ctx, out):
         if ctx.time_left() < 20: break
         for prog in malformed_programs(rng):
             check_case(ctx, out, prog, gd.random_geometry(rng), 'malformed')
+    history_stream(ctx, out, ctx.rng('c13', 'history'), 10 if ctx.quick else 300)
     n_meta = 11 if ctx.quick else 300
     for i in range(n_meta):
         if ctx.time_left() < 12: out.notes.append(f'metamorphic stream stopped after {i} programs (budget)'); break
@@ -407,7 +522,9 @@ def replay(ctx, out, rp):
     prog = rp.get('program'); geom = rp.get('geom')
     if prog is None:
         raise SystemExit('replay file carries no drawing program')
-    for s in prog:
+    for s in prog + [t for e in rp.get('extensions') or [] for t in e]:
         for k in ('a', 'b'):
             if k in s: s[k] = tuple(s[k])
+    if rp.get('extensions'):
+        history_case(ctx, out, prog, rp['extensions'], geom, 'replay'); return
     check_case(ctx, out, prog, geom, 'replay')
